@@ -57,7 +57,7 @@ package tensor
 //@   ensures[C18] imp(err == nil, t != nil && hasShape(t, dims) && drawnN(t, u, s) && leafCtx(t, confTrack(conf)))
 
 // every tensor handed to the public API was produced by it (representation invariants of section 3.4)
-//@ define libTensors(ts) := forall(k, 0, len(ts), imp(ts[k] != nil, tinv(ts[k]) && preexisting(ts[k])))
+//@ define libTensors(ts) := forall(k, 0, len(ts), imp(ts[k] != nil, tinv(ts[k]) && published(ts[k])))
 
 //@ func Concat
 //@   public
